@@ -396,10 +396,11 @@ def _root_self(e):
     return None
 
 
-def written_attrs(fn) -> set:
-    """attributes of self / cls the function writes: assignment, augmented assignment, deletion, or a mutating method call on them
-    (through any subscripts): ``self.x = ..``, ``self.x[i] += ..``, ``self.x[i].append(..)``, ``del self.x[i]``"""
-    out = set()
+def written_attrs(fn) -> dict:
+    """attributes of self / cls the function writes, with the number of writing sites: assignment, augmented assignment, deletion,
+    or a mutating method call on them (through any subscripts): ``self.x = ..``, ``self.x[i] += ..``, ``self.x[i].append(..)``"""
+    from collections import Counter
+    out = Counter()
     for n in ast.walk(fn):
         tg = []
         if isinstance(n, ast.Assign):
@@ -415,15 +416,15 @@ def written_attrs(fn) -> set:
         elif isinstance(n, ast.Call) and isinstance(n.func, ast.Attribute) and n.func.attr in _MUT:
             r = _root_self(n.func.value)
             if r:
-                out.add(r)
+                out[r] += 1
         elif isinstance(n, ast.Call) and isinstance(n.func, ast.Name) and n.func.id in ('setattr', 'delattr') and n.args \
                 and isinstance(n.args[0], ast.Name) and n.args[0].id in ('self', 'cls'):
-            out.add(ast.unparse(n.args[1]) if len(n.args) > 1 else '?')
+            out[ast.unparse(n.args[1]) if len(n.args) > 1 else '?'] += 1
         flat = []
         for t in tg:
             flat.extend(t.elts if isinstance(t, (ast.Tuple, ast.List)) else [t])
         for t in flat:
             r = _root_self(t.value if isinstance(t, ast.Starred) else t)
             if r:
-                out.add(r)
-    return out
+                out[r] += 1
+    return dict(out)
